@@ -27,7 +27,7 @@ def perturbations(rng, shape, rho, count):
 
 class C07(Prop):
     id = 'C07'
-    rule_added = '30% of the discrete online cases run on an object that served another trace and was reset(). 35% of the online cases with duplicated sub-formulas.'
+    rule_added = '30% of the discrete online cases run on an object that served another trace and was reset(). 35% of the online cases with duplicated sub-formulas. 25% of the dense online cases feed the inputs as fields of one object-typed variable.'
     rule = ('random iff/xor-free, Boolean-typed formulas (predicates over arithmetic terms; Boolean, rise/fall, '
             'past/future operators) on the 4 monitor kinds (online kinds on the past fragment): (1) every returned '
             'value >0 (<0) is checked against an independent Boolean evaluator: the formula must be satisfied '
